@@ -315,6 +315,9 @@ def check(ctx):
     ctx.inst('R5', sol, 'failure-iff-link-not-open', okf, 'after the wait open_link raises iff _is_link_open is false (and returns normally only when it is true); guards of the raise %s' %
              (sorted(gso.fact_keys_at(rs_[0])) if rs_ else 'raise after the wait not found'))
     from .c02 import sync_wait_release_rules
+    from .c02 import disconnect_listener_rules, failed_open_rules
+    disconnect_listener_rules(ctx, 'R5')      # SyncCrazyflie._disconnected is reached (it is what lets a failed open_link return): no listener before it raises (shared with C02.R2)
+    failed_open_rules(ctx, 'R5')      # a member whose open failed half-way does not keep its driver: close_links() only closes members that are open (shared with C02.R1)
     sync_wait_release_rules(ctx, 'R5')      # a member whose attempt ends (any of the three ways) returns from open_link (shared with C02.R5)
     ctx.inst('R5', ol, 'refuse-second-open', ok, 'open_links must start with `if self._is_open: raise`')
     sets = [n for n in go.nodes if n.kind == 'stmt' and isinstance(n.ast, ast.Assign) and norm(n.ast.targets[0]) == 'self._is_open'
